@@ -26,11 +26,10 @@ PROPS = {
         "note": "window sizes above 18 (G1) / 15 (G2) are covered by theorem only, not by differential cases (table size)",
     },
     "C03": {
-        "modules": ["PP.Props.C03", "PP.Props.C03Lines", "PP.Props.C11Neg"], "level": "other", "technique": "Lean 4 proof (Miller loop = textbook tangent/chord lines of [k]Q, reduced ate value, order, identities, KAT) + differential and oracle tests of bilinearity",
-        "text": "Theorems: identity arguments give 1, e(P,Q)^r = 1, published e(g1,g2) reproduced both by the model and by the textbook specification; for all finite P in E(Fq), Q on E' with r Q = O (in particular all G1 x G2 inputs): the accumulator of the preparation loop is [k]Q, every coefficient triple IS the tangent/chord line of the untwisted points up to a factor in Fq4, the model's Miller loop equals conj(unit * textbook double-and-add Miller product) and pairing(P,Q) = conj(textbookMiller(P,Q))^(3(q^12-1)/r), also for the variant with vertical lines (denominator elimination proved). The scalar pairs (a,b) in {(1,-1),(-1,1),(-1,-1)} of the bilinearity clause are proved for all inputs (PP.Props.C11Neg). General bilinearity and non-degeneracy are NOT carried by theorems (divisor theory is absent from Mathlib; the textbook value is defined as a product of lines, not via divisors); they are tested: impl vs Lean model on every case, and e([a]P,[b]Q) = e(P,Q)^(ab) against an independent python Fq12 for scalars incl. 0,1,r-1,r,r+1,>=r, plus the repository's relic vector." + DIFF,
-        "note": "partial: bilinearity / non-degeneracy are tests, labelled as such in the evidence (partial_clauses)",
-        "explanation": "theorem-backed: identity->1, order divides r, value = reduced ate pairing computed by the textbook tangent/chord Miller product, exponent 3(q^12-1)/r, KAT; test-backed: bilinearity, non-degeneracy",
-        "partial": ["bilinearity (test only)", "non-degeneracy (test only)"],
+        "modules": ["PP.Props.C03", "PP.Props.C03Lines", "PP.Props.C11Neg", "PP.Props.C03LinP", "PP.Props.C03LinQ", "PP.Props.C03Bilinear"], "level": "proof", "technique": "Lean 4 proof (Miller loop = textbook tangent/chord lines; bilinearity from line-line reciprocity + twisted Frobenius (first argument) and from the ideal theory of Mathlib's coordinate ring of the curve over Fq12 (second argument); non-degeneracy from bilinearity, cyclicity of G1/G2 and the kernel-evaluated e(g1,g2)) + differential and oracle tests",
+        "text": "ALL clauses are theorems about the model's pairing (which is proved equal to the translation of the Rust code, GenPair). BILINEARITY (PP.Props.C03Bilinear.bilinear): for P in G1, Q in G2 and all a, b, e([a]P,[b]Q) = e(P,Q)^(ab), identities and scalars >= r included, also with the model's own scalar multiplications (bilinear_mul); it never fails on these inputs. Proof without divisor theory: linearity in P (C03LinP: for ALL P on E(Fq), not only G1) by reciprocity of lines on explicit points, a Miller-loop invariant, the twisted Frobenius pi = [q] on G2 and r | q - x; linearity in Q (C03LinQ) through Mathlib's coordinate ring over Fq12: the ideal of a line is the product of the maximal ideals of its zeros, units are constants, so the quotient of Miller functions is a constant c with c^4 = 1, which the final exponentiation kills. NON-DEGENERACY (nondegenerate): on G1 x G2, e(P,Q) = 1 iff P or Q is the identity. ORDER: e(P,Q)^r = 1. SAME VALUE whichever side initiates (GenPair: both pairing_with impls = pairing). STANDARD ATE PAIRING (C03Lines): for all finite P in E(Fq), Q in G2 the accumulator of the preparation loop is [k]Q, every coefficient triple IS the tangent/chord line of the untwisted points up to a factor in Fq4, pairing(P,Q) = conj(textbookMiller(P,Q))^(3(q^12-1)/r); published e(g1,g2) reproduced by the model and by the textbook specification in the kernel. Tests in addition: impl vs Lean model, an independent python ate pairing with affine lines over Fq12, e([a]P,[b]Q) = e(P,Q)^(ab) for scalars incl. 0,1,r-1,r,r+1,>=r through both multiplication routes, projective arguments incl. junk identity representatives, the repository's relic vector." + DIFF,
+        "note": "none beyond the trusted base",
+        "explanation": "theorem-backed: every clause (bilinearity, non-degeneracy, order, symmetry of initiation, agreement with the textbook reduced ate pairing, KAT)",
     },
     "C04": {
         "modules": ["PP.Props.C04", "PP.Props.C04Inst"], "level": "proof", "technique": "Lean 4 proof (decoder = ordered declarative validation, for all byte strings) + differential correspondence",
@@ -69,11 +68,10 @@ PROPS = {
         "note": "differential cases for windows > 10 use small-digit scalars (cost of the bucket reduction); the theorem covers all scalars",
     },
     "C11": {
-        "modules": ["PP.Props.C11", "PP.Props.C11Neg"], "level": "other", "technique": "Lean 4 proof of the product structure and of the cancellation law e(P,Q)e(-P,Q)=1 for all inputs + oracle tests of the general exponent clause",
-        "text": "Theorems: joint Miller loop = product of single Miller loops for every list, identity pairs contribute 1 at any position, final exponentiation multiplicative (C12), prepared length / no unwrap panic, helpers agree for equal lengths. Proved WITHOUT bilinearity (PP.Props.C11Neg, via the textbook lines of C03Lines and the conjugation symmetry l_T(-P) = -conj l_T(P)): for every P on E(Fq) and every Q accepted by in_subgroup, identities included, pairing(-P,Q) = pairing(P,-Q) = pairing(P,Q)^-1, pairing_product(P,Q,-P,Q) = pairing_product(P,Q,P,-Q) = pairing_multi_product([P,-P],[Q,Q]) = 1, and pairing_product(P1,Q,-P2,Q) = 1 iff e(P1,Q) = e(P2,Q) (the verification equation with a common second argument). The general clause e(g1,g2)^(sum a_i b_i) needs bilinearity (C03) and is tested (cancelling combinations, a shared prepared element, the textbook ate oracle)." + DIFF,
-        "note": "partial: the general exponent clause is test-only (the cancelling case is proved); the Miller-loop driver and the product helpers are translated from the source and proved equal to the model (GenPair)",
-        "explanation": "theorem-backed: product structure, identity pairs, helper agreement, no panic; test-backed: value equals e(g1,g2)^(sum a_i b_i)",
-        "partial": ["general exponent clause needs bilinearity (test only); the cancelling case a_2 = -a_1 is proved"],
+        "modules": ["PP.Props.C11", "PP.Props.C11Neg", "PP.Props.C03Bilinear"], "level": "proof", "technique": "Lean 4 proof (product structure of the joint Miller loop by induction over the pair list, final exponentiation multiplicative, bilinearity of C03 for the exponent clause) + differential and oracle tests",
+        "text": "Theorems: joint Miller loop = product of single Miller loops for every list, identity pairs contribute 1 at any position, final exponentiation multiplicative (C12), prepared length / no unwrap panic, the two-pair and slice helpers agree for equal lengths, prepared elements reusable within and across calls. EXPONENT CLAUSE (PP.Props.C03Bilinear.multiProduct_exponent): for P in G1, Q in G2 and any list with P_i = [a_i]P, Q_i = [b_i]Q, pairing_multi_product = e(P,Q)^(sum a_i b_i), hence exactly 1 when the exponents cancel mod r; the cancelling pair e(P,Q)e(-P,Q) = 1 is also proved directly for every P on E(Fq) (C11Neg). The driver code (miller_loop, pairing_product, pairing_multi_product) is translated from the source and proved equal to the model (GenPair)." + DIFF,
+        "note": "none beyond the trusted base",
+        "explanation": "theorem-backed: product structure, identity pairs, helper agreement, no panic, exponent clause, prepared reuse",
     },
     "C12": {
         "modules": ["PP.Props.C12"], "level": "proof", "technique": "Lean 4 proof (exponent tracking in the unit group, numeric congruence in the kernel) + differential correspondence",
